@@ -5,7 +5,7 @@ cd /verif
 mkdir -p /var/tmp/thor$st/work /var/tmp/thor$st/ev
 for p in "$@"; do
   s=$(date +%s)
-  out=$(KV_WORK=/var/tmp/thor$st/work KV_EVIDENCE=/var/tmp/thor$st/ev nice -n 10 timeout 1500 ./check $p --tier thorough 2>&1); rc=$?
+  out=$(KV_WORK=/var/tmp/thor$st/work KV_EVIDENCE=/var/tmp/thor$st/ev nice -n 10 timeout ${THOR_TIMEOUT:-1500} ./check $p --tier thorough 2>&1); rc=$?
   e=$(date +%s)
   echo "$out" > /var/tmp/thor$st/$p.out
   echo "thorough[final-tree s$st] $p rc=$rc wall=$((e-s)) $(echo "$out" | grep -c '^KNOWN-FINDING') known | $(echo "$out" | grep -E '^\[C|^VIOLATION|^TOOL-ERROR' | head -3 | cut -c1-200 | tr '\n' ' ')" >> /verif/work/thor.log
